@@ -287,6 +287,12 @@ class MetadataTable:
         for entry in self.entries:
             item_id = UUID(bytes_le=entry.item_id)
 
+            if item_id not in self.METADATA_MAP:
+                # Unknown (e.g. user) metadata items may be ignored, unless they are marked as required
+                if entry.is_required:
+                    raise InvalidVirtualDisk(f"Unsupported required metadata item: {item_id}")
+                continue
+
             fh.seek(self.offset + entry.offset)
             value = self.METADATA_MAP[item_id](fh)
             self.lookup[item_id] = value
